@@ -91,35 +91,40 @@ def showFlags (f : HeaderFlags) : String :=
 /-- sections of one version of a history -/
 def showVersion (cfg : Config) (ver : Version) (v : VersionIf) (withTrees : Bool) : List String :=
   let k := ver.number
-  let census := versionCensus ver v cfg.frames
-  let cs := match census with
-    | .ok d => s!"V{k}.census=" ++ joinWith "," (d.map fun pn => s!"{pn.1}:{pn.2}")
-    | .error e => s!"V{k}.census=" ++ errStr e
-  let trees := if withTrees ∧ census.isOk then
-      ver.schema.rootNumbers.map fun r =>
-        match getBTreeRoot v cfg.frames r with
-        | .ok t => s!"V{k}.tree{r}=" ++ showTree t
-        | .error e => s!"V{k}.tree{r}=" ++ errStr e
-    else []
-  [ s!"V{k}.hdr=" ++ showHdr ver.hdr,
-    s!"V{k}.size={ver.dbSize}",
-    s!"V{k}.ps={ver.pageSize}",
-    s!"V{k}.enc={ver.encoding}",
-    s!"V{k}.updated=" ++ natList ver.updated,
-    s!"V{k}.pvi=" ++ pairList ver.pvi,
-    s!"V{k}.pfi=" ++ pairList ver.pfi,
-    s!"V{k}.mod=h{b01 ver.hdrModified}r{b01 ver.rootModified}s{b01 ver.schemaModified}f{b01 ver.freelistModified}p{b01 ver.ptrmapModified}",
-    s!"V{k}.flags=" ++ showFlags ver.flags,
-    s!"V{k}.freelist=" ++ joinWith "|" (ver.freelist.map fun t => s!"{t.number}:{t.next}:[{natList t.leaves}]"),
-    s!"V{k}.flnums=" ++ natList ver.freelistNumbers,
-    s!"V{k}.ptrmap=" ++ joinWith "|" (ver.ptrmap.map fun p =>
-        s!"{p.number}:{p.nEntries}:" ++ joinWith "," (p.entries.map fun e => s!"{e.pageNumber}/{e.ptype}/{e.parent}")),
-    s!"V{k}.schema=" ++ joinWith "|" (ver.schema.entries.map showSchemaRow),
-    s!"V{k}.schemapages=" ++ joinWith "," (ver.schema.pages.map fun pn => s!"{pn.1}:{pn.2}"),
-    s!"V{k}.roots=" ++ natList ver.schema.rootNumbers,
-    s!"V{k}.updbt=" ++ natList ver.updatedBTree,
-    s!"V{k}.tree1=" ++ showTree ver.rootTree,
-    cs ] ++ trees
+  let pre :=
+    [ s!"V{k}.hdr=" ++ showHdr ver.hdr,
+      s!"V{k}.size={ver.dbSize}",
+      s!"V{k}.ps={ver.pageSize}",
+      s!"V{k}.enc={ver.encoding}",
+      s!"V{k}.updated=" ++ natList ver.updated,
+      s!"V{k}.pvi=" ++ pairList ver.pvi,
+      s!"V{k}.pfi=" ++ pairList ver.pfi,
+      s!"V{k}.mod=h{b01 ver.hdrModified}r{b01 ver.rootModified}s{b01 ver.schemaModified}f{b01 ver.freelistModified}p{b01 ver.ptrmapModified}",
+      s!"V{k}.flags=" ++ showFlags ver.flags,
+      s!"V{k}.freelist=" ++ joinWith "|" (ver.freelist.map fun t => s!"{t.number}:{t.next}:[{natList t.leaves}]"),
+      s!"V{k}.flnums=" ++ natList ver.freelistNumbers,
+      s!"V{k}.ptrmap=" ++ joinWith "|" (ver.ptrmap.map fun p =>
+          s!"{p.number}:{p.nEntries}:" ++ joinWith "," (p.entries.map fun e => s!"{e.pageNumber}/{e.ptype}/{e.parent}")) ]
+  match observedSchema ver v cfg.frames with
+  | .error e => pre ++ [s!"V{k}.schema=" ++ errStr e]
+  | .ok (rootTree, schema) =>
+    let census := versionCensus ver v cfg.frames
+    let cs := match census with
+      | .ok d => s!"V{k}.census=" ++ joinWith "," (d.map fun pn => s!"{pn.1}:{pn.2}")
+      | .error e => s!"V{k}.census=" ++ errStr e
+    let trees := if withTrees ∧ census.isOk then
+        schema.rootNumbers.map fun r =>
+          match getBTreeRoot v cfg.frames r with
+          | .ok t => s!"V{k}.tree{r}=" ++ showTree t
+          | .error e => s!"V{k}.tree{r}=" ++ errStr e
+      else []
+    pre ++
+    [ s!"V{k}.schema=" ++ joinWith "|" (schema.entries.map showSchemaRow),
+      s!"V{k}.schemapages=" ++ joinWith "," (schema.pages.map fun pn => s!"{pn.1}:{pn.2}"),
+      s!"V{k}.roots=" ++ natList schema.rootNumbers,
+      s!"V{k}.updbt=" ++ natList ver.updatedBTree,
+      s!"V{k}.tree1=" ++ showTree rootTree,
+      cs ] ++ trees
 
 def showWal (w : Wal) : List String :=
   [ s!"wal.hdr=m{w.hdr.magic},fv{w.hdr.formatVersion},ps{w.hdr.pageSize},cs{w.hdr.checkpointSeq},s1{w.hdr.salt1},s2{w.hdr.salt2},c1{w.hdr.checksum1},c2{w.hdr.checksum2}",
